@@ -5,7 +5,9 @@ from pipes import vector
 def run(tier, rep):
     tv, st = vector.pipeline(tier, rep)
     # life-* deviations are the business of C03 (same traces, different monitor)
-    rep.devs = [d for d in rep.devs if not d["kind"].startswith("life")]
+    # ... and default-initialisation into dirty storage / allocation monitoring the business of C02
+    rep.devs = [d for d in rep.devs if not d["kind"].startswith("life") and not d["kind"].startswith("mem")
+                and d.get("ev", {}).get("op") != "ctor_dinit"]
     rep.assumptions += ["element values are small integers; Tracked element type stands for every non-trivial T",
                         "capacities above 4 are reached by seeded random histories only",
                         "the TLA+ reading of std::vector is calibrated against libstdc++ on the same scripts"]
